@@ -86,8 +86,19 @@ Definition len_rules : list (N * (bool * N)) :=
     (13, (true, 4));     (* RSSI *)
     (14, (true, 0));     (* icon image: empty in a Hello, fetched with QueryLargeTlv *)
     (15, (false, 32));   (* machine name *)
+    (16, (false, 64));   (* support information (URL) *)
     (17, (true, 0));     (* friendly name: empty in a Hello *)
-    (20, (true, 4)) ].   (* QoS characteristics *)
+    (18, (true, 16));    (* device UUID *)
+    (19, (false, 200));  (* hardware id *)
+    (20, (true, 4));     (* QoS characteristics *)
+    (21, (true, 1));     (* 802.11 physical medium *)
+    (22, (true, 0));     (* AP association table: empty in a Hello *)
+    (24, (true, 0));     (* detailed icon image: empty in a Hello *)
+    (25, (true, 2));     (* sees-list working set *)
+    (26, (true, 0));     (* component table: empty in a Hello *)
+    (27, (false, 36));   (* repeater AP lineage *)
+    (28, (true, 0)) ].   (* repeater AP table: empty in a Hello *)
+(* The table covers every property type MS-LLTD defines for a Hello, not only the ones this responder emits today. *)
 Definition legal_len (t len : N) : bool :=
   match assoc t len_rules with
   | Some (true, n) => len =? n
